@@ -6,6 +6,8 @@ import collections
 import itertools
 import json
 import os
+import tempfile
+import shutil
 import subprocess
 import sys
 
@@ -404,13 +406,40 @@ def _memo_cases(tier, rng):
                 kwargs = {**kwargs, k: v}
             calls.append((args, kwargs))
         rng.shuffle(calls)
-        yield {"calls": calls, "cache": ("simple", "lru", "hybrid")[q % 3]}
+        yield {"calls": calls, "cache": ("simple", "lru", "hybrid", "disk")[q % 4]}
+    # the disk cache names its files after the key: all small argument tuples at once (a weak file name would make two
+    # different calls share a file)
+    trip = list(itertools.product((1, 2, 3), repeat=3))
+    for form in ("args", "list", "kwargs", "bytes"):
+        calls = []
+        for t in trip:
+            if form == "args":
+                calls.append((t, {}))
+            elif form == "list":
+                calls.append(((list(t),), {}))
+            elif form == "kwargs":
+                calls.append(((), dict(zip("abc", t))))
+            else:
+                calls.append(((bytes(96 + x for x in t),), {}))
+        rng.shuffle(calls)
+        yield {"calls": calls, "cache": "disk"}
 
 
 def _check_memo(case):
     from pipefunc.cache import HybridCache, LRUCache, SimpleCache, memoize
+    tmp = tempfile.mkdtemp(prefix="vf_c15_") if case["cache"] == "disk" else None
+    try:
+        return _check_memo_with(case, tmp)
+    finally:
+        if tmp:
+            shutil.rmtree(tmp, ignore_errors=True)
+
+
+def _check_memo_with(case, tmp):
+    from pipefunc.cache import DiskCache, HybridCache, LRUCache, SimpleCache, memoize
     cache = {"simple": SimpleCache, "lru": lambda: LRUCache(shared=False, max_size=64),
-             "hybrid": lambda: HybridCache(shared=False, max_size=64)}[case["cache"]]()
+             "hybrid": lambda: HybridCache(shared=False, max_size=64),
+             "disk": lambda: DiskCache(tmp, lru_shared=False)}[case["cache"]]()
 
     def plain(*args, **kwargs):
         return ("called-with", repr(args), repr(sorted(kwargs.items(), key=lambda kv: kv[0])))
